@@ -73,6 +73,7 @@ type Opts struct {
 	Media       bool
 	MaxSvcs     int
 	MaxRoutes   int
+	Faults      bool // fault traffic between the judged requests (routing.Fault)
 	Contest     bool // now and then a table of masks of one literal path (genContest)
 	Adversarial bool // free-form paths, odd bytes
 	Trace       bool // run the real side with trace logging enabled
@@ -631,5 +632,5 @@ func genAccept(r *rng.R, rt RouteDecl, all []RouteDecl) string {
 // FullOpts is the widest generator for a router: every documented template form, media, conditions, adversarial paths.
 func FullOpts(router string) Opts {
 	return Opts{Router: router, AllowRe: true, AllowSuf: router == "curly", AllowWild: true, AllowVerb: router == "curly",
-		RootVars: true, RootRe: true, Conds: true, Media: true, MaxSvcs: 4, MaxRoutes: 6, Adversarial: true, Contest: true}
+		RootVars: true, RootRe: true, Conds: true, Media: true, MaxSvcs: 4, MaxRoutes: 6, Adversarial: true, Contest: true, Faults: true}
 }
